@@ -404,6 +404,7 @@ structure ClassDef where
   pmap : Option UDict         -- `_HTTP_PREFIX_MAP` if the class body defines it
   own : List (Str × Comps)    -- wrappers defined in the class body: name ↦ components of `method_http`
   metas : List (Str × Comps)  -- `_MCALLERS_METAS` as computed by the metaclass
+  delegates : List (Str × Str) -- wrappers of the class body whose body only calls another wrapper: `self.<inner>(…)`
   deriving DecidableEq, Repr
 
 structure Heap where
@@ -447,7 +448,7 @@ inductive Op where
   | listAppend (l : Nat) (a : Adapter)
   | newDict (d : UDict)
   | newParams (d : Dict)      -- a params object: dict with non-str values, or list / tuple of pairs
-  | newClass (bases mro : List Nat) (pmap : Option UDict) (own : List (Str × Comps))
+  | newClass (bases mro : List Nat) (pmap : Option UDict) (own : List (Str × Comps)) (delegates : List (Str × Str))
   | mk (t : Target) (own : Own) (plain : Bool)
   | add (c : Nat) (a : Adapter)
   | newCaller (t : Target) (cls : Nat)
@@ -648,6 +649,23 @@ def bodyClass (cs : List ClassDef) (m : Str) : List Nat → Option Nat
     | some cd => if cd.own.any (·.1 = m) then some c else bodyClass cs m r
     | none => bodyClass cs m r
 
+/-- the wrapper that finally makes the request when `k.m(…)` is called: a body that only calls
+`self.<inner>(…)` hands over to the body Python's MRO selects for `inner`, and so on; `get_conn()` is
+called in the innermost one (`get_mcaller_meta` walks the stack from the innermost frame outwards and
+stops at the first function that is a wrapper). Result: (name, class of the body) of that wrapper. -/
+def resolveWrapper (cs : List ClassDef) (mro : List Nat) : Nat → Str → Except Err (Str × Nat)
+  | 0, _ => .error .outOfFuel
+  | fuel + 1, m =>
+    match bodyClass cs m mro with
+    | none => .error .attributeError
+    | some b =>
+      match cs[b]? with
+      | none => .error .keyError
+      | some bd =>
+        match lookup bd.delegates m with
+        | some inner => resolveWrapper cs mro fuel inner
+        | none => .ok (m, b)
+
 /-- the harness's wrapper bodies send to `path + "~" + <number of the class whose body runs>` -/
 def bodySuffix (c : Nat) : Str := '~' :: (toString c).toList
 
@@ -689,11 +707,12 @@ def step (H : Heap) : Op → Heap × Except Err Reply
     if d.all (fun kv => kv.2.text.isSome) then
       ({ H with dicts := H.dicts ++ [d], userDicts := H.userDicts ++ [H.dicts.length] }, .ok (.ref H.dicts.length))
     else (H, .error .typeError)
-  | .newClass bases mro pmap own =>
+  | .newClass bases mro pmap own delegates =>
     match bases.mapM (fun b => H.classes[b]?) with
     | none => (H, .error .keyError)
     | some bs =>
-      ({ H with classes := H.classes ++ [{ bases, mro, pmap, own, metas := mergeMetas (bs.map (·.metas)) own }] },
+      ({ H with classes := H.classes ++
+          [{ bases, mro, pmap, own, metas := mergeMetas (bs.map (·.metas)) own, delegates }] },
        .ok (.ref H.classes.length))
   | .newCaller t cls =>
     -- `MCallerHttp.__init__`: an `HttpConn` is taken as it is, anything else goes to `HttpConn(address)`
@@ -747,9 +766,12 @@ def step (H : Heap) : Op → Heap × Except Err Reply
       match H.classes[cl.cls]? with
       | none => (H, .error .keyError)
       | some cd =>
-        match bodyClass H.classes m cd.mro, lookup cd.metas m with
-        | some b, some comps => doCall H k comps { args with path := args.path ++ bodySuffix b }
-        | _, _ => (H, .error .attributeError)
+        match resolveWrapper H.classes cd.mro 16 m with
+        | .error e => (H, .error e)
+        | .ok (m', b) =>
+          match lookup cd.metas m' with
+          | some comps => doCall H k comps { args with path := args.path ++ bodySuffix b }
+          | none => (H, .error .attributeError)
   | .request c args =>
     match request H c args with
     | (H', .ok s) => (H', .ok (.sent s))
